@@ -185,10 +185,18 @@ def parseExpr : Nat → List String → Option (Expr × List String)
         | .error _ => none
       | _ => none
 
+/-- an operand: a range text, or `@any` for `Range::any()` (which no text denotes) -/
+def parseOperand (t : List Char) : Except SemverError Range :=
+  if t == "@any".toList then
+    match Range.anyRange with
+    | some r => .ok r
+    | none => .error ⟨t, 0, .noValidRanges⟩
+  else Range.parse t
+
 def withRange (f : String) (k : Range → String) : String :=
   match decodeText f with
   | none => "badreq"
-  | some t => match Range.parse t with
+  | some t => match parseOperand t with
     | .ok r => k r
     | .error _ => "perr"
 
@@ -400,7 +408,7 @@ def toInterval (s : BoundSet) : Option Interval :=
 /-- the set denoted by a printed range (read with the model's parser, which C13 proves to invert
 `Display`); `none` if the text is not a printed range -/
 def vsetOfText (t : List Char) : Option VSet :=
-  match Range.parse t with
+  match parseOperand t with
   | .ok r =>
     let is := r.filterMap toInterval
     if is.length == r.length then some is else none
